@@ -712,3 +712,9 @@ MUTANTS += [
                         borrow = (old_b_val <= this->dwords[i]) ? 1 : 0;
                     }""")]),
 ]
+MUTANTS += [
+ dict(name='seed-C12-precompute-skips-omitted', prop='C12', patch='seeded/C12-precompute-skips-omitted/patch.diff', expect='R-TOTAL'),
+ dict(name='seed-C04-fq12-frobenius-index', prop='C04', patch='seeded/C04-fq12-frobenius-index-subtract/patch.diff', expect='R-BOUNDS'),
+ dict(name='seed-C14-sticky-negative', prop='C14', patch='seeded/C14-sticky-negative-flag/patch.diff', expect='modr'),
+ dict(name='seed-C10-bounded-retry', prop='C10', patch='seeded/C10-bounded-retry-fr-random/patch.diff', expect='reject|Fr::random'),
+]
